@@ -45,6 +45,7 @@ class TargetReport:
         self.errors = []
         self.outside = []
         self.cross_checked = 0
+        self.cross_skipped = 0
         self.cross_disagreements = []
         self.dropped_calls = 0
         self.native_calls = {}
@@ -65,6 +66,7 @@ class TargetReport:
         self.errors.extend(other.errors)
         self.outside.extend(other.outside)
         self.cross_checked += other.cross_checked
+        self.cross_skipped += other.cross_skipped
         self.cross_disagreements.extend(other.cross_disagreements)
         self.dropped_calls += other.dropped_calls
         for k, v in other.native_calls.items():
@@ -261,6 +263,9 @@ def _account_path(target, rep, res, carve, tier, cross_check):
                     status, backend, model, sout = 'discharged', 'z3-%s' % z3.get_version_string(), None, 'unsat'
                 elif r == z3.sat:
                     status, backend, model, sout = 'refuted', 'z3-%s' % z3.get_version_string(), ctx.solver.model(), 'sat'
+                    extra = target.witness_constraints(ctx, res.state)
+                    if extra and ctx.solver.check(z3.Not(gs), *extra) == z3.sat:
+                        model = ctx.solver.model()      # prefer a counter-model that is exact in doubles
         if status is None:
             status, backend, sec, model, sout = smt.check_valid(pc, g)
         ob.status, ob.backend, ob.seconds, ob.solver_out = status, backend, sec, sout
@@ -290,6 +295,18 @@ def _cross_check(target, rep, res, pid):
         return
     model = s.model()
     inputs = model_inputs(ctx, model)
+    if target.float_sensitive:
+        # float-exact witnesses (see Target.witness_constraints); paths without one are not comparable
+        rounded = _rounded_model(ctx, model)
+        if rounded is not None:
+            inputs, model = rounded
+        else:
+            s.set('timeout', 1500)
+            if s.check(*target.witness_constraints(ctx, res.state)) != z3.sat:
+                rep.cross_skipped += 1
+                return
+            model = s.model()
+            inputs = model_inputs(ctx, model)
     try:
         nctx, nst, nout, nclauses = native_run(target, inputs, ctx.choices)
     except (OutsideSubset, EngineError) as err:
@@ -328,6 +345,38 @@ def _cross_check(target, rep, res, pid):
 
 
 JOB_PATHS = 250
+
+
+class _FixedModel:
+    """model-like object: a total assignment of the path's inputs"""
+
+    def __init__(self, subs):
+        self.subs = subs
+
+    def eval(self, e, model_completion=True):
+        return z3.simplify(z3.substitute(e, *self.subs))
+
+
+def _rounded_model(ctx, model):
+    """round every real input of `model` to a multiple of 1/1024; keep it if the path condition still holds"""
+    import fractions
+    subs = []
+    inputs = {}
+    for name, cst in ctx.inputs.items():
+        v = model.eval(cst, model_completion=True)
+        if cst.sort().kind() == z3.Z3_REAL_SORT:
+            if z3.is_algebraic_value(v):
+                v = v.approx(20)
+            fr = fractions.Fraction(v.numerator_as_long(), v.denominator_as_long())
+            fr = fractions.Fraction(round(fr * 1024), 1024)
+            v = z3.RealVal(fr)
+        subs.append((cst, v))
+        inputs[name] = smt.z3_to_python(v)
+    fm = _FixedModel(subs)
+    for p in ctx.pc:
+        if not z3.is_true(fm.eval(p)):
+            return None
+    return inputs, fm
 
 
 def _pool_job(args):
